@@ -102,7 +102,8 @@ Expected(m, e, k) ==
   ELSE IF e.jump[k] = "no" THEN (IF m.pend[k] = <<>> THEN m.val[k] ELSE m.pend[k][1])
   ELSE IF m.pend[k] = <<>> THEN e.cont[k]
   ELSE IF m.pend[k][1].k = "abs" THEN m.pend[k][1].x + e.n - 1      \* seek_to(frame x)
-  ELSE e.cont[k] + m.pend[k][1].x                                    \* seek_by(x frames)
+  \* seek_by(x frames): a target before the beginning of the sound lands on its first frame
+  ELSE IF e.cont[k] + m.pend[k][1].x < e.n - 1 THEN e.n - 1 ELSE e.cont[k] + m.pend[k][1].x
 
 Wrong(m, e) ==
   { k \in DOMAIN m.val :
